@@ -6,24 +6,24 @@ sys.path.insert(0, HERE)
 from registry import PROPERTIES
 
 TEXT = {
- "C01": "lemma enc_sound proved for every node width/sign/bounds over the assumed rows A-rs1; the Python glue of to_ge_polyhedron (real source) proved against the executable form of A-rs1 for 4 tree shapes x all sign assignments with symbolic thresholds/bounds; the rows of the compiled extension validated row by row at run time (bounded)",
+ "C01": "lemma enc_sound proved for every node width/sign/bounds over the assumed rows A-rs1; the Python glue of to_ge_polyhedron (real source) proved against the executable form of A-rs1 for 4 tree shapes x all sign assignments with symbolic thresholds/bounds; reduced=True: only the glue's transport of the extension's answer (open contract); the rows of the compiled extension validated row by row at run time (bounded)",
  "C02": "lemmas enc_sound (completeness) and sound_safe (converse for solver-safe nodes) proved for every node width over A-rs1; glue + A-rs1 model: converse proved for the solver-safe sign assignments of 4 tree shapes (symbolic values); rows validated at run time; all integer points of small polyhedra enumerated (bounded)",
  "C03": "assume()/variable.evaluate interval computation and the total=>constant lemma proved for every child count and value form; evaluate()/evaluate_propositions() glue proved over the contracts of assume and (assumed) flatten; repeated queries on one object by bounded stand-ins; end to end on tree shapes with symbolic values: evaluate(e) is the truth value",
- "C04": "every direct constructor proved over an abstract child list of any length; JSON and rule-dictionary routes by bounded stand-in",
+ "C04": "every direct constructor proved over an abstract child list of any length; JSON route: round-trip obligations of every class composed with the constructor obligations, and plog.from_json on hand-written records of all 8 types with symbolic thresholds; rule dictionaries: the real Imply.from_cicJE on 240 enumerated dictionary shapes, every 0/1 assignment; random records and the same dictionaries natively by bounded stand-in",
  "C05": "every path x sign x generated_id of the real AtLeast.negate proved for every child count (complement, safe form over boolean leaves, explicit id kept); callee contract as induction hypothesis; an end-to-end runtime cross-check runs as well; end to end on tree shapes with symbolic values (integer leaves): complement and id",
  "C06": "assume/post.bounds + lemma.sound (all completions) + is_tautology/is_contradiction/equation_bounds sound, complete and exact: proved for every child count; end-to-end and history stand-ins run as well; end to end on tree shapes: evaluate(partial) contains every completion's truth value",
  "C07": "assume/post.c07 proved for every child count and every value form: ival(assume(d), e) == ival(self, d|e); the property as stated (assume(a).evaluate(r) == evaluate(a|r), all value forms) and histories by bounded stand-ins as well; end to end on tree shapes: assume(a).evaluate(r) == evaluate(a|r)",
  "C08": "reduce/post.meaning, post.noconst, post.bounds proved for every child count; end-to-end stand-in over near-identical models in one process runs as well; end to end on tree shapes: reduce().evaluate(e) == evaluate(e)",
- "C09": "frame obligations (no store to any pre-existing object / list / module container on any path) for every method under contract incl. add and default_prios, input-free; cache-key obligations; one known finding (D2); sequences of all public calls on models and configurators and the configurator cache scenarios by bounded stand-ins",
+ "C09": "frame obligations (no store to any pre-existing object / list / module container on any path) for every method under contract incl. add and default_prios, input-free; cache-key obligations; one known finding (D2); frames around readers/writers/solver routes incl. mutable default arguments; sequences of all public calls on models and configurators, probes on other objects against process-start answers and the configurator cache scenarios by bounded stand-ins",
  "C10": "key functions of errors() extracted from the source proved injective on definitions (all ids/bounds/signs/values/children) + Lean card_image_comp_iff; traversal and cycle check by bounded stand-in; the real errors() end to end on tree shapes with symbolic bounds/thresholds of repeated ids (accepted iff one definition), independent of the source text",
  "C11": "step functions and the small-shape fix-point loop proved for symbolic entries (bounded in shape); projection property end to end by bounded stand-in",
  "C12": "row_bounds exact, tighten_column_bounds sound and non-widening, n_row_combinations: proved for symbolic entries on shapes up to 2x2 (bounded in shape; float rounding not modelled); brute force up to 3x3 incl. large coefficients by bounded stand-in",
  "C13": "first/last/min/max, ranking, prio/rank and shadow (the latter over the executable form of the assumed contract A-rs2 of the compiled bit allocation) proved through the real Python code for symbolic entries on small shapes (1-D n<=3, 2-D up to 2x2 quick / 3x2 thorough, both axes); A-rs2 validated against the compiled function at run time; larger shapes, 3-D, >2^53 values and call sequences on one array by bounded stand-in",
  "C14": "cc.Any/cc.Xor restructuring around the default (truth function, -2 tag, partition) proved for any number of children; default_prios (tag or -1 per flattened node) and _vectors_from_prios (two-level stack handed to the shadow compression) proved; Lean dominance lemma; objective ranking end to end by bounded stand-in (weights from compiled code: A-rs2); the objective vector end to end through the real shadow compression over the executable A-rs2 model: sign, level and dominance structure proved for 2-3 columns with symbolic priorities",
- "C15": "solve/select/StingyConfigurator.select alignment of objectives, solutions and ids proved for symbolic weights/solutions on 1-3 columns; objective rows of _vectors_from_prios (weight at the named column, 0 elsewhere) proved; recording and exact solvers on random models by bounded stand-in",
+ "C15": "solve/select/StingyConfigurator.select alignment of objectives, solutions and ids proved for symbolic weights/solutions on 1-3 columns; objective rows of _vectors_from_prios (weight at the named column, 0 elsewhere) proved; the built-in route (no callable) against an open contract of the compiled solver: every named id's statement gets its weight, every id is reported with its statement's value; recording and exact solvers on random models by bounded stand-in",
  "C16": "to_json -> from_json proved meaning/id preserving for every class incl. the configurator classes and any child count (compound children by contract; explicit ids concrete and fully symbolic, i.e. also ids that look generated); json.dumps/loads, Not, nested configurators by bounded stand-in; end to end on nested tree shapes with symbolic values",
  "C17": "alignment obligations of the b64 packing decided on the source (ast); pickle/gzip/base64 assumed; structural and behavioural equality after the round trip by bounded stand-in",
- "C18": "add(): refusal exactly on clashing ids, result children/threshold/id/class, receiver untouched: proved for any width; equality with direct construction (priorities, polyhedron, solutions), sequences and histories by bounded stand-in",
+ "C18": "add(): refusal exactly on clashing ids, result children/threshold/id/class, receiver untouched: proved for any width; end to end on concrete configurators (symbolic thresholds/bounds, warm receivers, top-level items): structure, default priorities, polyhedron, leafs equal to direct construction; equality with direct construction (priorities, polyhedron, solutions), sequences and histories by bounded stand-in",
  "C19": "ineqs_satisfied/separable/ineq_separate_points proved equal to the row-by-row definition for symbolic matrices and points of rank 1-3 on small shapes; random shapes on real numpy by bounded stand-in",
  "C20": "construct, index partition, to_list, from_list (symbolic duplicate-free ids), to_linalg proved for symbolic values/bounds on 1-3 variables; exotic ids by bounded stand-in",
 }
